@@ -278,7 +278,7 @@ class PVLParser(object):
                     parsing = True
                 else:
                     return m
-            except LexerError:
+            except (LexerError, ParseError):
                 raise
             except Exception:
                 pass
